@@ -39,6 +39,7 @@ THEOREMS = {
         "Shroud.Lines.wl_empty_body_ok",
         "Shroud.Lines.rendered_line_limit",
         "Shroud.Lines.wl_subline_spec",
+        "Shroud.Lines.wof_header_then_body",
         "Shroud.Lines.emitter_line_config",
     ]
 }
@@ -90,6 +91,45 @@ def real_wl(w, linelen, indent, spaces, cont, items):
         assert text.endswith("\n")
         lines = text[:-1].split("\n")
     return "ok %d %s" % (w.indent, common.encs(lines))
+
+
+def real_wof(comment, fname, version, copyright, linelen, spaces, cont, items):
+    """real util.WrapperMixin.write_output_file into a scratch directory"""
+    import contextlib
+    import io as _io
+    from shroud import util
+
+    class Lib:
+        pass
+
+    class Cfg:
+        pass
+
+    class Log:
+        def write(self, s):
+            pass
+
+    class W(util.WrapperMixin):
+        pass
+    w = W()
+    w.comment, w.cont, w.linelen = comment, cont, linelen
+    w.newlibrary = Lib()
+    w.newlibrary.copyright = copyright
+    w.config = Cfg()
+    w.config.write_version = version
+    w.log = Log()
+    d = common.scratch()
+    try:
+        try:
+            with contextlib.redirect_stdout(_io.StringIO()):
+                w.write_output_file(fname, d, list(items), spaces)
+        except Exception as e:  # noqa
+            return "crash " + type(e).__name__
+        text = open(os.path.join(d, fname), newline="").read()
+    finally:
+        common.rmtree(d)
+    lines = text[:-1].split("\n") if text else []
+    return "ok " + common.encs(lines)
 
 
 def enc_items(items):
@@ -322,6 +362,20 @@ def run(ctx):
     for (ll, ind, sp, cont, items) in wl_cases:
         reqs.append("wl %d %d %s %s %s" % (ll, ind, common.enc(sp), common.enc(cont), enc_items(items)))
         impl.append(real_wl(w, ll, ind, sp, cont, items))
+    # write_output_file: header + copyright + body
+    nwof = 400 if thorough else 120
+    for k in range(nwof):
+        comment = r.choice(["//", "!", "#", "--"])
+        fname = r.choice(["wrapfoo.cpp", "wrapffoo.f", "typesfoo.h", "x.c"])
+        version = r.choice(["0.12.2", "nowrite-version", "1.0"])
+        copyright = [r.choice(["Copyright (c) 2017", "", "SPDX-License-Identifier: (BSD-3-Clause)", "other Shroud Project Developers."])
+                     for _ in range(r.randrange(0, 4))]
+        items = wl_cases[k % len(wl_cases)][4]
+        ll = r.choice([20, 72, 132])
+        sp, cont = "    ", r.choice(["", " &"])
+        reqs.append("wof %s %s %s %s %d %s %s %s" % (common.enc(comment), common.enc(fname), common.enc(version),
+                                                   common.encs(copyright) if copyright else "~", ll, common.enc(sp), common.enc(cont), enc_items(items)))
+        impl.append(real_wof(comment, fname, version, copyright, ll, sp, cont, items))
     ctx.count(len(reqs))
     disagreements = []
     if drv.available() and ok:
